@@ -277,6 +277,19 @@ def main():
     if errors:
         for r in errors:
             print("CHECKER-ERROR in unit %s: %s" % (r["unit"], r["error"].splitlines()[0]))
+        # The changed code is outside what the contracts attach to (contract drift / unsupported construct).
+        # Bounded stand-in: run the property's executable oracle against the real code; a failing input is
+        # reported as a violation, otherwise the run stays a checker error (never a silent pass).
+        witness, evaluated, wlog = witness_search(pid, spec, 45 if tier == "quick" else 240)
+        if witness is not None:
+            h = hashlib.sha1((pid + "bounded-standin").encode()).hexdigest()[:10]
+            path = os.path.join(ROOT, "replays", "%s-%s.json" % (pid, h))
+            json.dump({"property": pid, "obligation": "bounded stand-in (deductive check not applicable to the changed code: %s)"
+                       % errors[0]["error"].splitlines()[0], "unit": errors[0]["unit"], "status": "bounded-counterexample",
+                       "backend": "executable oracle on the real code, %d cases evaluated" % evaluated, "model": {},
+                       "witness": witness}, open(path, "w"), indent=1)
+            print("VIOLATION property=%s replay=%s" % (pid, path))
+            return 1
         return 3
     if vac:
         for v in vac:
